@@ -19,7 +19,7 @@ func newGen(w *World, fn *ssa.Function, ct *Contract) *gen {
 		exitState: map[*ssa.BasicBlock]map[string]string{}, edgeCond: map[[2]*ssa.BasicBlock]string{},
 		cur: map[string]string{}, params: map[string]T{}, stable: map[*ssa.Alloc]bool{},
 		allocAddr: map[*ssa.Alloc]string{}, callOrd: map[string]int{}, debugVars: map[*ssa.BasicBlock]map[string]T{},
-		loopOrd: map[*ssa.BasicBlock]int{}, closures: map[ssa.Value]*ssa.MakeClosure{}}
+		loopOrd: map[*ssa.BasicBlock]int{}, closures: map[ssa.Value]*ssa.MakeClosure{}, faTag: map[string]int{}}
 	g.idx = bvSort(64)
 	if ct.Unit.IntMath {
 		g.idx = sInt
@@ -293,6 +293,7 @@ func (g *gen) run() {
 	fn := g.fn
 	ci := analyseCFG(fn)
 	g.numberLoops(ci)
+	g.numberCalls()
 	g.computeStable()
 	g.ensureSort(sErr)
 
@@ -344,6 +345,7 @@ func (g *gen) run() {
 	for _, b := range ci.order {
 		g.doBlock(ci, b)
 	}
+	g.disciplines()
 	g.finish()
 }
 
@@ -444,10 +446,19 @@ func (g *gen) doBlock(ci *cfgInfo, b *ssa.BasicBlock) {
 	if isHeader {
 		g.doLoopHead(ci, b, conds, preds)
 	}
+	if isHeader {
+		// anything whose address leaks inside the loop has leaked for every iteration but the first
+		for blk := range ci.body[b] {
+			for _, in := range blk.Instrs {
+				g.markEscapes(in)
+			}
+		}
+	}
 	for _, in := range b.Instrs {
 		if _, ok := in.(*ssa.Phi); ok {
 			continue
 		}
+		g.markEscapes(in)
 		g.doInstr(ci, in)
 	}
 	g.exitState[b] = g.cur
@@ -499,6 +510,11 @@ func (g *gen) loopEnv(h *ssa.BasicBlock, phiVals map[*ssa.Phi]T, st map[string]s
 	for _, blk := range g.domChain(h) {
 		for n, t := range g.debugVars[blk] {
 			e.vars[n] = t
+		}
+	}
+	if rs := g.rangeSlice(h); rs != nil {
+		if t, ok := g.vals[rs]; ok {
+			e.vars["rangeslice"] = t
 		}
 	}
 	for phi, t := range phiVals {
@@ -640,6 +656,8 @@ func (g *gen) loopMods(ci *cfgInfo, h *ssa.BasicBlock) (map[string]bool, bool) {
 						mods[c] = true
 					}
 				}
+			case *ssa.Go, *ssa.Defer:
+				// spawning / registering does not run the callee here (goroutines are not modelled: D1)
 			case ssa.CallInstruction:
 				cm, call := g.callMods(x)
 				if call {
@@ -873,4 +891,179 @@ func (g *gen) domChain(h *ssa.BasicBlock) []*ssa.BasicBlock {
 		chain = append([]*ssa.BasicBlock{b}, chain...)
 	}
 	return chain
+}
+
+// disciplines: structural obligations (decided from the SSA, no solver reasoning needed): every
+// closure created here whose body can reach a call of d.Callee is used only as the argument of
+// d.Registrar.
+func (g *gen) disciplines() {
+	for _, d := range g.unit.Disciplines {
+		n := 0
+		for _, b := range g.fn.Blocks {
+			for _, in := range b.Instrs {
+				mc, ok := in.(*ssa.MakeClosure)
+				if !ok || !g.closureCalls(mc.Fn.(*ssa.Function), d.Callee, map[*ssa.Function]bool{}) {
+					continue
+				}
+				n++
+				okUse := true
+				why := ""
+				if refs := mc.Referrers(); refs != nil {
+					for _, r := range *refs {
+						switch x := r.(type) {
+						case *ssa.DebugRef:
+						case ssa.CallInstruction:
+							full, _ := g.calleeName(x.Common())
+							isArg := false
+							for _, a := range x.Common().Args {
+								isArg = isArg || a == ssa.Value(mc)
+							}
+							if _, isDefer := x.(*ssa.Defer); isDefer || !isArg || full != d.Registrar {
+								okUse = false
+								why = "used by " + full
+							}
+						default:
+							okUse = false
+							why = fmt.Sprintf("used by %T", r)
+						}
+					}
+				}
+				goal := "true"
+				if !okUse {
+					goal = "false"
+				}
+				o := g.addObl("discipline", fmt.Sprintf("closure-calling.%s#%d", g.w.shortKey(d.Callee), n),
+					fmt.Sprintf("closure that calls %s is only registered with %s %s", d.Callee, d.Registrar, why), goal, mc.Pos())
+				o.Prelude = 0
+			}
+		}
+	}
+}
+
+func (g *gen) closureCalls(fn *ssa.Function, callee string, seen map[*ssa.Function]bool) bool {
+	if seen[fn] {
+		return false
+	}
+	seen[fn] = true
+	for _, b := range fn.Blocks {
+		for _, in := range b.Instrs {
+			switch x := in.(type) {
+			case ssa.CallInstruction:
+				full, _ := g.calleeName(x.Common())
+				if full == callee {
+					return true
+				}
+			case *ssa.MakeClosure:
+				if g.closureCalls(x.Fn.(*ssa.Function), callee, seen) {
+					return true
+				}
+			}
+		}
+	}
+	return false
+}
+
+// rangeSlice: for a `for ... range <slice>` loop headed by h, the slice value being ranged over.
+func (g *gen) rangeSlice(h *ssa.BasicBlock) ssa.Value {
+	var idxPhi *ssa.Phi
+	for _, in := range h.Instrs {
+		if p, ok := in.(*ssa.Phi); ok && p.Comment == "rangeindex" {
+			idxPhi = p
+		}
+	}
+	if idxPhi == nil {
+		return nil
+	}
+	var inc ssa.Value
+	for _, in := range h.Instrs {
+		if b, ok := in.(*ssa.BinOp); ok && b.X == ssa.Value(idxPhi) {
+			inc = b
+		}
+	}
+	if inc == nil || inc.Referrers() == nil {
+		return nil
+	}
+	for _, r := range *inc.Referrers() {
+		if ia, ok := r.(*ssa.IndexAddr); ok && ia.Index == inc {
+			return ia.X
+		}
+	}
+	return nil
+}
+
+// rootAlloc: the local allocation an address value is derived from (through field/index addressing)
+func rootAlloc(v ssa.Value) *ssa.Alloc {
+	for {
+		switch x := v.(type) {
+		case *ssa.Alloc:
+			return x
+		case *ssa.FieldAddr:
+			v = x.X
+		case *ssa.IndexAddr:
+			v = x.X
+		case *ssa.Slice:
+			v = x.X
+		default:
+			return nil
+		}
+	}
+}
+
+// markEscapes: flow-sensitive escape information.  A local allocation is kept across the havoc of
+// an unknown call as long as its address has not been handed to anything that could retain it.
+func (g *gen) markEscapes(in ssa.Instruction) {
+	if g.escaped == nil {
+		g.escaped = map[*ssa.Alloc]bool{}
+	}
+	switch x := in.(type) {
+	case *ssa.UnOp, *ssa.FieldAddr, *ssa.IndexAddr, *ssa.DebugRef, *ssa.Slice:
+		return
+	case *ssa.Store:
+		if a := rootAlloc(x.Val); a != nil {
+			g.escaped[a] = true
+		}
+		return
+	case *ssa.Call:
+		if b, ok := x.Call.Value.(*ssa.Builtin); ok && (b.Name() == "append" || b.Name() == "len" || b.Name() == "cap") {
+			// append copies the elements of its tail; a slice of a local array passed as the tail does not leak
+			if b.Name() == "append" && len(x.Call.Args) > 0 {
+				if a := rootAlloc(x.Call.Args[0]); a != nil {
+					g.escaped[a] = true
+				}
+			}
+			return
+		}
+	}
+	for _, op := range in.Operands(nil) {
+		if op == nil || *op == nil {
+			continue
+		}
+		if a := rootAlloc(*op); a != nil {
+			g.escaped[a] = true
+		}
+	}
+}
+
+// numberCalls: the k-th call of a callee is counted in source order (position), so that anchors
+// such as "call#2 AddDelta" do not depend on the block layout chosen by the SSA builder.
+func (g *gen) numberCalls() {
+	g.srcOrd = map[ssa.Instruction]int{}
+	by := map[string][]*ssa.Call{}
+	for _, b := range g.fn.Blocks {
+		for _, in := range b.Instrs {
+			if c, ok := in.(*ssa.Call); ok {
+				if _, isB := c.Call.Value.(*ssa.Builtin); isB {
+					continue
+				}
+				full, _ := g.calleeName(&c.Call)
+				by[full] = append(by[full], c)
+			}
+		}
+	}
+	for _, cs := range by {
+		sort.SliceStable(cs, func(i, j int) bool { return cs[i].Pos() < cs[j].Pos() })
+		for i, c := range cs {
+			g.srcOrd[c] = i + 1
+		}
+	}
 }
